@@ -587,6 +587,52 @@ Definition ops_C02_u64 : list opdef := [
        | _ => VBad end) |}
 ].
 
+(** * session on ONE held word buffer (seeded change C02-c02c-m1: a global "sequential access" hint keyed on the buffer's
+      address): args = [ws; steps], step [0; i] = Select32R64(buf, current indexes, i), step [1; k; x] = buf[k] = x in place
+      followed by IndexSelect32R64(buf) (the indexes every later query uses).  Observed: one value per step ([a; b] / 0). *)
+Fixpoint c02_set_word (ws : list Z) (k : nat) (x : Z) : list Z :=
+  match ws, k with
+  | [], _ => []
+  | _ :: t, O => x :: t
+  | w :: t, S k' => w :: c02_set_word t k' x
+  end.
+
+Fixpoint c02_session_run (sel : list Z -> Z -> val) (ws : list Z) (steps : list val) : list val :=
+  match steps with
+  | [] => []
+  | VL [VZ 0; VZ i] :: t => sel ws i :: c02_session_run sel ws t
+  | VL [VZ 1; VZ k; VZ x] :: t =>
+      if (0 <=? k) && (k <? zlen ws) && word_okb x
+      then VZ 0 :: c02_session_run sel (c02_set_word ws (Z.to_nat k) x) t
+      else [VBad]
+  | _ :: _ => [VBad]
+  end.
+
+Definition c02_session_model_sel (ws : list Z) (i : Z) : val :=
+  if c02_in_range ws i then
+    match IndexSelect32R64 ws with
+    | Some (sidx, ridx) => match Select32R64 ws sidx ridx i with Some p => c02_pair p | None => VPanic end
+    | None => VPanic
+    end
+  else VBad.
+
+Definition c02_session_spec_sel (ws : list Z) (i : Z) : val := c02_pair (spec_Select ws i).
+
+Definition c02_session (sel : list Z -> Z -> val) (a : list val) : val :=
+  match a with
+  | [ws; VL steps] => match as_zs ws with
+      | Some ws => let r := c02_session_run sel ws steps in
+                   if existsb (fun v => match v with VBad => true | _ => false end) r then VBad else VL r
+      | None => VBad end
+  | _ => VBad
+  end.
+
+Definition ops_C02_session : list opdef := [
+  {| op_name := "bitmap.Select32R64/session";
+     op_run := c02_session c02_session_model_sel;
+     op_spec := fun_spec (c02_session c02_session_spec_sel) |}
+].
+
 Definition ops_C02 : list opdef :=
   ops_C02_base ++ ops_C02_widen ++ ops_C02_next ++ ops_C02_toarray ++ ops_C02_prev ++ ops_C02_heldidx ++ ops_C02_rle
-  ++ ops_C02_u64.
+  ++ ops_C02_u64 ++ ops_C02_session.
